@@ -97,4 +97,44 @@ namespace rkverif_c16 {
     delete[] mem;
     return s;
   }
+  // ---- R-C16-10: backward trim loops
+  const char *trim_le_space(const char *begin, const char *end)            // must be reported: plain char is signed, bytes >= 0x80 are <= ' '
+  {
+    while (end > begin && end[-1] <= ' ')
+      --end;
+    return end;
+  }
+
+  const char *trim_isspace(const char *begin, const char *end)             // must not be reported
+  {
+    while (end > begin && isspace((unsigned char)end[-1]))
+      --end;
+    return end;
+  }
+
+  const char *trim_unsigned_le_space(const char *begin, const char *end)   // must not be reported: blanks and control bytes only
+  {
+    while (end > begin && (unsigned char)*(end - 1) <= ' ')
+      --end;
+    return end;
+  }
+
+  static bool blank(char c)
+  {
+    return c == ' ' || c == '\t' || c == '\n' || c == '\r';
+  }
+
+  const char *trim_helper(const char *begin, const char *end)              // must not be reported
+  {
+    for (; end > begin && blank(end[-1]); --end)
+      ;
+    return end;
+  }
+
+  const char *trim_not_graph(const char *begin, const char *end)           // must be reported: !isgraph is true for bytes >= 0x80
+  {
+    while (end > begin && !isgraph(end[-1]))
+      --end;
+    return end;
+  }
 }  // namespace rkverif_c16
